@@ -10,6 +10,9 @@ import DryocVerif.Proofs.OnetimeAuth
 import DryocVerif.Proofs.Poly1305Extra
 import DryocVerif.Proofs.Blake2bExtra
 import DryocVerif.Proofs.ObjectViewExtra
+import DryocVerif.Proofs.ObjectViewHash
+import DryocVerif.Proofs.Blake2bFinalLen
+import DryocVerif.Proofs.GenUtils
 /-
 C07 — hash, MAC and core primitives equal their specifications on every input.
 Property theorems only; helper lemmas live in `DryocVerif/Proofs`.
@@ -372,11 +375,34 @@ theorem incrementGo_length (bs : Bytes) (c : Nat) : (Model.Utils.incrementGo c b
 open DryocVerif.Model.Blake2b in
 /-- The model of `blake2b_soft.rs` (parameter block, keyed init via a padded key block, the buffering
 `update`, `finalize`, the code-shaped `compress`) computes RFC 7693 BLAKE2b for every digest length
-1..=64, every key of 0..=64 bytes and every message (< 2^64 bytes). -/
+1..=64, every key of 1..=64 bytes passed as `Some(key)`, NO key passed as `None`, and every message (< 2^64 bytes).
+READ THE STATEMENT: the empty key is mapped to `none` (`if key.isEmpty then none else some key`).  An earlier docstring
+said "every key of 0..=64 bytes"; that was wrong for `Some(&[])`, which the code (and the model) do NOT treat as
+"unkeyed": see `blake2b_hash_some_nil` right below. -/
 theorem blake2b_model_eq_spec (outLen : Nat) (key msg : Bytes) (ho : 1 ≤ outLen ∧ outLen ≤ 64)
     (hk : key.length ≤ 64) (hlen : msg.length + 128 < 2^64) :
     hash outLen msg (if key.isEmpty then none else some key) = .ok (Spec.Blake2b.hash outLen key msg) :=
   Proofs.Blake2b.hash_model_eq_spec outLen key msg ho hk hlen
+
+open DryocVerif.Model.Blake2b in
+/-- **`blake2b::hash(out, msg, Some(&[]))` is OFF RFC 7693.**  `State::init` enters `if let Some(key) = key` also for the
+empty slice: the parameter block gets `key_length = 0` (unkeyed), but a 128-byte all-zero block is absorbed before the
+message.  The result is the UNKEYED BLAKE2b of `0¹²⁸ ‖ msg` — not of `msg`, and not a keyed hash.  The model is
+code-shaped here (this theorem is about the model as it has always been; no model change).  NOT reachable through the
+public API: module `blake2b` is private, and `crypto_generichash` / `crypto_generichash_init` answer `Err` for a
+`Some(key)` shorter than 16 bytes (`generichash_err_iff`) — they do not map it to `None`. -/
+theorem blake2b_hash_some_nil (outLen : Nat) (msg : Bytes) (ho : 1 ≤ outLen ∧ outLen ≤ 64)
+    (hl : msg.length + 256 < 2^128) :
+    hash outLen msg (some []) = .ok (Spec.Blake2b.hash outLen [] (zeros 128 ++ msg)) :=
+  Proofs.Blake2b.hash_some_nil outLen msg ho hl
+
+open DryocVerif.Model.Blake2b in
+/-- non-vacuity and the difference made visible (kernel-evaluated, 64-byte digest of the empty message, first byte):
+`Some(&[])` gives `BLAKE2b-512(0¹²⁸)`, `None` gives `BLAKE2b-512("")`; `crypto_generichash(.., Some(&[]))` is `Err` -/
+example : (∃ d, hash 64 [] (some []) = .ok d ∧ d = Spec.Blake2b.hash 64 [] (zeros 128)) ∧
+    (Spec.Blake2b.hash 64 [] (zeros 128)).take 1 ≠ (Spec.Blake2b.hash 64 [] []).take 1 ∧
+    generichash 64 [] (some []) = .err := by
+  refine ⟨⟨_, blake2b_hash_some_nil 64 [] (by omega) (by simp), by simp⟩, by decide +kernel, by decide⟩
 
 open DryocVerif.Model.Blake2b in
 /-- `crypto_generichash` with its argument validation (digest 16..=64, key absent or 16..=64 bytes) -/
@@ -522,8 +548,12 @@ theorem hchacha20_model_eq_spec (key inp : Bytes) (hk : key.length = 32) (hi : i
     Model.Core.hchacha20 key inp none = Spec.ChaCha20.hchacha20 key inp :=
   Proofs.Core.hchacha20_eq_spec key inp hk hi
 
-/-- with `Some((c0, c1, c2, c3))`: the same construction on the state `c0 c1 c2 c3 | key | input`
-(`Spec.ChaCha20.hchacha20` has no constant parameter, so the right-hand side spells it out) -/
+/-- with `Some((c0, c1, c2, c3))`: the same construction on the state `c0 c1 c2 c3 | key | input`.
+CAVEAT: `Spec.ChaCha20.hchacha20` has no constant parameter, so the right-hand side is NOT a named specification
+function: it INLINES its own "spec" (`rounds20` on the 16-word state, first and last rows out).  What is independent of
+this file is only `Spec.ChaCha20.rounds20` / `wordsOfBytes` / `bytesOfWords`; the way they are put together on the
+right is written here, next to the theorem, and has no external vector behind it (the `none` case,
+`hchacha20_model_eq_spec`, is against the named `Spec.ChaCha20.hchacha20`). -/
 theorem hchacha20_model_eq_spec_const (key inp : Bytes) (c : UInt32 × UInt32 × UInt32 × UInt32)
     (hk : key.length = 32) (hi : inp.length = 16) :
     Model.Core.hchacha20 key inp (some c) =
@@ -583,10 +613,42 @@ SHA-512 itself, here on a 129-byte key — the panic is real for the instantiate
 example : Model.Core.hmacInit Spec.Sha512.sha512 (List.replicate 129 0) = .panic :=
   hmac_init_long_key_panics Spec.Sha512.sha512 (List.replicate 129 0) (by simp) (by decide +kernel)
 
-/-- `crypto_auth_verify` accepts exactly the correct authenticator -/
+/-- `crypto_auth_verify` accepts exactly the correct authenticator.
+STATEMENT UNCHANGED, DEFINITION CHANGED (third review): `Model.Core.hmacVerify` now takes its decision through
+`Model.OnetimeAuth.ctEq mac computed = 1` — the model of `mac.ct_eq(&computed_mac).unwrap_u8() == 1`
+(`subtle::ConstantTimeEq for [u8]`: length test, AND of the byte-wise `ct_eq`s) — where it used to say
+`if mac = computed`.  That `ct_eq` decides byte-string equality is now part of what this theorem proves
+(`ct_eq_one_iff`), not of the definition. -/
 theorem hmac_verify_ok_iff (key msg mac : Bytes) (hk : key.length = 32) :
     Model.Core.hmacVerify Spec.Sha512.sha512 mac msg key = .ok () ↔ mac = Spec.Hmac.hmacSha512256 key msg :=
   Proofs.Core.hmacVerify_ok_iff key msg mac (by omega)
+
+/-- … and answers `Err` on every other value (never a panic for a 32-byte key: `C04.hmacVerify_never_panics`) -/
+theorem hmac_verify_err_iff (key msg mac : Bytes) (hk : key.length = 32) :
+    Model.Core.hmacVerify Spec.Sha512.sha512 mac msg key = .err ↔ mac ≠ Spec.Hmac.hmacSha512256 key msg :=
+  Proofs.Core.hmacVerify_err_iff key msg mac (by omega)
+
+/-- the definition is the `ct_eq` one (`rfl`), and it can be read with `=` (a theorem) -/
+theorem hmac_verify_uses_ct_eq (H : Bytes → Bytes) (mac msg key : Bytes) :
+    Model.Core.hmacVerify H mac msg key =
+      (match Model.Core.hmac H key msg with
+       | .ok computed => if Model.OnetimeAuth.ctEq mac computed = 1 then .ok () else .err
+       | .err => .err
+       | .panic => .panic) ∧
+    Model.Core.hmacVerify H mac msg key =
+      (match Model.Core.hmac H key msg with
+       | .ok computed => if mac = computed then .ok () else .err
+       | .err => .err
+       | .panic => .panic) :=
+  ⟨rfl, Proofs.Core.hmacVerify_eq_if H mac msg key⟩
+
+/-- non-vacuity (toy hash): right MAC `Ok`, wrong MAC `Err`, MAC of another length `Err` (by `ct_eq`'s length test) -/
+example :
+    let H : Bytes → Bytes := fun x => List.replicate 64 (UInt8.ofNat x.length)
+    Model.Core.hmacVerify H (List.replicate 32 192) [1, 2, 3] (List.replicate 32 1) = .ok () ∧
+    Model.Core.hmacVerify H (List.replicate 32 191) [1, 2, 3] (List.replicate 32 1) = .err ∧
+    Model.Core.hmacVerify H (List.replicate 31 192) [1, 2, 3] (List.replicate 32 1) = .err := by
+  decide +kernel
 
 /-- **`Auth::new(key)`, `update(c)`…, `verify(tag)`** (/repo/src/auth.rs; `Model.ObjectView.authObjectVerify`:
 `crypto_auth_init(key.as_array())`, the updates, `self.finalize()`, `other_mac.as_array().ct_eq(computed_mac.as_array())`)
@@ -638,21 +700,135 @@ example :
     Model.ObjectView.authObjectVerify H key [[1, 2], [3]] (tag.set 0 0) = .err := by
   decide +kernel
 
+/-! ### three more container rules of the object API (`Model/ObjectViewHash.lean`) -/
+
+/-- **`GenericHash::<KEY_LENGTH, OUTPUT_LENGTH>::hash(input, Some(key))` / `new(Some(key))`** (/repo/src/generichash.rs)
+pass `key.as_slice()` — the WHOLE container: never a panic; `Err` exactly when `OUTPUT_LENGTH ∉ 16..=64` or the
+container's length is outside `16..=64`; otherwise BLAKE2b keyed with ALL bytes of the container.  `KEY_LENGTH` plays
+no role: a 64-byte `Vec` with `KEY_LENGTH = 32` is hashed WHOLE and a short one is an `Err` — the opposite of
+`Auth` / `OnetimeAuth`, which view the 32-byte prefix and panic on a short container (`authCompute_cases`). -/
+theorem genericHashObj_cases (KL OL : Nat) (input key : Bytes) :
+    Model.ObjectViewHash.genericHashObj KL OL input (some key) ≠ .panic ∧
+    (Model.ObjectViewHash.genericHashObj KL OL input (some key) = .err ↔
+      (OL < 16 ∨ 64 < OL) ∨ (key.length < 16 ∨ 64 < key.length)) ∧
+    (16 ≤ OL ∧ OL ≤ 64 → 16 ≤ key.length ∧ key.length ≤ 64 → input.length + 128 < 2 ^ 64 →
+      Model.ObjectViewHash.genericHashObj KL OL input (some key) = .ok (Spec.Blake2b.hash OL key input)) :=
+  Proofs.ObjectViewHash.genericHashObj_cases KL OL input key
+
+/-- side by side with what the `as_array` rule would do (`genericHashObjIfViewed`, for comparison only), `KEY_LENGTH = 32` -/
+theorem genericHashObj_vs_viewed (OL : Nat) (input key : Bytes) (ho : 16 ≤ OL ∧ OL ≤ 64)
+    (hl : input.length + 128 < 2 ^ 64) :
+    (key.length = 64 →
+      Model.ObjectViewHash.genericHashObj 32 OL input (some key) = .ok (Spec.Blake2b.hash OL key input) ∧
+      Model.ObjectViewHash.genericHashObjIfViewed 32 OL input key
+        = .ok (Spec.Blake2b.hash OL (key.take 32) input)) ∧
+    (key.length < 16 →
+      Model.ObjectViewHash.genericHashObj 32 OL input (some key) = .err ∧
+      Model.ObjectViewHash.genericHashObjIfViewed 32 OL input key = .panic) :=
+  Proofs.ObjectViewHash.genericHashObj_vs_viewed OL input key ho hl
+
+/-- `GenericHash::new(key)?; update(c)…; finalize()` = the one-shot `GenericHash::hash` of the concatenation, for every
+key container and every pair of lengths (both fail the same way) -/
+theorem genericHashObjChunks_eq (KL OL : Nat) (key : Option Bytes) (cs : List Bytes) :
+    Model.ObjectViewHash.genericHashObjChunks KL OL key cs
+      = Model.ObjectViewHash.genericHashObj KL OL cs.flatten key :=
+  Proofs.ObjectViewHash.genericHashObjChunks_eq KL OL key cs
+
+/-- non-vacuity: the hypotheses are satisfiable (a 64-byte and an 8-byte container, 32-byte digest, empty input) -/
+example : (16 ≤ 32 ∧ 32 ≤ 64) ∧ ([] : Bytes).length + 128 < 2 ^ 64 ∧ (zeros 64).length = 64 ∧ (zeros 8).length < 16 ∧
+    Model.ObjectViewHash.genericHashObj 32 32 [] (some (zeros 8)) = .err ∧
+    Model.ObjectViewHash.genericHashObjIfViewed 32 32 [] (zeros 8) = .panic := by decide
+
+/-- **`Sha512::compute_into_bytes(output, input)` / `finalize_into_bytes(output)`** (/repo/src/sha512.rs):
+`GenericArray::<_, U64>::from_mut_slice(output.as_mut_slice())` panics unless `output.len() == 64` — so a 65-byte
+`Vec` PANICS here, while every `as_array` / `as_mut_array` view in the crate accepts "at least `N`" -/
+theorem sha512IntoBytes_panic_iff (H : Bytes → Bytes) (out input : Bytes) :
+    Model.ObjectViewHash.sha512IntoBytes H out input = .panic ↔ out.length ≠ 64 :=
+  Proofs.ObjectViewHash.sha512IntoBytes_panic_iff H out input
+
+theorem sha512IntoBytes_ok (H : Bytes → Bytes) (out input : Bytes) (h : out.length = 64) :
+    Model.ObjectViewHash.sha512IntoBytes H out input = .ok (H input) :=
+  Proofs.ObjectViewHash.sha512IntoBytes_ok H out input h
+
+example : Model.ObjectViewHash.sha512IntoBytes (fun _ => zeros 64) (zeros 65) [] = .panic ∧
+    Model.ObjectViewHash.sha512IntoBytes (fun _ => zeros 64) (zeros 63) [] = .panic ∧
+    Model.ObjectViewHash.sha512IntoBytes (fun _ => zeros 64) (zeros 64) [] = .ok (zeros 64) := by decide
+
+/-- **`Auth::compute(key, input)`** with a `Vec<u8>` / `&[u8]` key (`key.as_array()`): panic iff the container holds fewer
+than 32 bytes, HMAC-SHA-512-256 under its FIRST 32 bytes otherwise, never `Err` -/
+theorem authCompute_cases (key msg : Bytes) :
+    (Model.ObjectViewHash.authCompute Spec.Sha512.sha512 key msg = .panic ↔ key.length < 32) ∧
+    (32 ≤ key.length → Model.ObjectViewHash.authCompute Spec.Sha512.sha512 key msg
+      = .ok (Spec.Hmac.hmacSha512256 (key.take 32) msg)) ∧
+    Model.ObjectViewHash.authCompute Spec.Sha512.sha512 key msg ≠ .err :=
+  Proofs.ObjectViewHash.authCompute_cases key msg
+
+/-- `Auth::new(key)`, `update(c)`…, `finalize()` -/
+theorem authNewFinalize_cases (key : Bytes) (cs : List Bytes) :
+    (Model.ObjectViewHash.authNewFinalize Spec.Sha512.sha512 key cs = .panic ↔ key.length < 32) ∧
+    (32 ≤ key.length → Model.ObjectViewHash.authNewFinalize Spec.Sha512.sha512 key cs
+      = .ok (Spec.Hmac.hmacSha512256 (key.take 32) cs.flatten)) ∧
+    Model.ObjectViewHash.authNewFinalize Spec.Sha512.sha512 key cs ≠ .err :=
+  Proofs.ObjectViewHash.authNewFinalize_cases key cs
+
+/-- **`OnetimeAuth::compute(key, input)`**: panic iff the key container holds fewer than 32 bytes, Poly1305 under its FIRST
+32 bytes otherwise, never `Err` -/
+theorem onetimeCompute_cases (key msg : Bytes) :
+    (Model.ObjectViewHash.onetimeCompute key msg = .panic ↔ key.length < 32) ∧
+    (32 ≤ key.length →
+      Model.ObjectViewHash.onetimeCompute key msg = .ok (Spec.Poly1305.mac (key.take 32) msg)) ∧
+    Model.ObjectViewHash.onetimeCompute key msg ≠ .err :=
+  Proofs.ObjectViewHash.onetimeCompute_cases key msg
+
+/-- `OnetimeAuth::new(key)`, `update(c)`…, `finalize()` -/
+theorem onetimeNewFinalize_cases (key : Bytes) (cs : List Bytes) :
+    (Model.ObjectViewHash.onetimeNewFinalize key cs = .panic ↔ key.length < 32) ∧
+    (32 ≤ key.length →
+      Model.ObjectViewHash.onetimeNewFinalize key cs = .ok (Spec.Poly1305.mac (key.take 32) cs.flatten)) ∧
+    Model.ObjectViewHash.onetimeNewFinalize key cs ≠ .err :=
+  Proofs.ObjectViewHash.onetimeNewFinalize_cases key cs
+
+/-- non-vacuity (evaluated): a 31-byte key panics, a 33-byte key gives the MAC of its first 32 bytes -/
+example :
+    Model.ObjectViewHash.onetimeCompute (zeros 31) [1] = .panic ∧
+    Model.ObjectViewHash.onetimeCompute (zeros 32 ++ [9]) [1] = Model.ObjectViewHash.onetimeCompute (zeros 32) [1] ∧
+    Model.ObjectViewHash.authCompute (fun x => List.replicate 64 (UInt8.ofNat x.length)) (zeros 31) [1] = .panic ∧
+    Model.ObjectViewHash.authCompute (fun x => List.replicate 64 (UInt8.ofNat x.length)) (zeros 32 ++ [9]) [1]
+      = Model.ObjectViewHash.authCompute (fun x => List.replicate 64 (UInt8.ofNat x.length)) (zeros 32) [1] := by
+  decide +kernel
+
 /-! ### Tie to the source: the machine-translated kernels (`DryocVerif/Gen/*.lean`, regenerated from `/repo/src` by
 `tools/rs2lean.py` on every run) equal the hand-written model.  An edit of the Rust arithmetic changes the generated
 definition, and these theorems are re-checked against what the code says now. -/
 
-/-- `utils.rs::load_u64_le` as translated = the little-endian value of the first 8 bytes, for every slice -/
+/-- `utils.rs::load_u64_le` as translated = the little-endian value of the first 8 bytes.
+HONEST SIDE CONDITION (docstring only, the statement is unchanged): it holds "for every slice" only because BOTH sides
+are total — the translation reads a missing byte as `0` (`getD`), `le (b.take 8)` just has fewer bytes.  The RUST indexes
+`bytes[0] … bytes[7]` and PANICS on a slice shorter than 8 bytes; the statement says something about the code only under
+`8 ≤ b.length` (every caller passes an 8-byte sub-slice).  Likewise `load_u32_le` under `4 ≤ b.length`. -/
 theorem translated_load_u64_le (b : Bytes) : Gen.Utils.load_u64_le b = le (b.take 8) :=
   Proofs.GenUtils.load_u64_le_eq_le b
 
 theorem translated_load_u32_le (b : Bytes) : Gen.Utils.load_u32_le b = le (b.take 4) :=
   Proofs.GenUtils.load_u32_le_eq_le b
 
-/-- `increment_bytes` / `sodium_increment` as translated (byte loop with a u16 carry) = the model, for every length;
-the checked `carry += *b as u16` never overflows -/
+/-- `increment_bytes` / `sodium_increment` as translated (byte loop with a u16 carry) = the model, for every length
+(no side condition: the Rust iterates over the slice, it does not index).  The claim "the checked `carry += *b as u16`
+never overflows" is NOT part of this equation (the translation works on `Nat`); it is the separate theorem
+`increment_bytes_no_overflow` right below. -/
 theorem translated_increment_bytes (bs : Bytes) : Gen.Utils.increment_bytes bs = Model.Utils.incrementBytes bs :=
   Proofs.GenUtils.increment_bytes_eq_model bs
+
+/-- **the checked `carry += *b as u16` of `increment_bytes` never overflows**: the translated function is the fold of
+`Proofs.GenUtils.incStep` from carry `1` (`rfl`), and at the iteration that processes byte `b` after ANY prefix `pre`
+the incoming carry is at most `1`, so `carry + b ≤ 256 < 2^16` (re-export of `Proofs.GenUtils.incFold_carry_le` /
+`incStep_no_overflow`) -/
+theorem increment_bytes_no_overflow (pre : Bytes) (b : UInt8) :
+    (∀ bs, Gen.Utils.increment_bytes bs = (bs.foldl Proofs.GenUtils.incStep (1, ([] : Bytes))).2) ∧
+    (pre.foldl Proofs.GenUtils.incStep (1, ([] : Bytes))).1 ≤ 1 ∧
+    (pre.foldl Proofs.GenUtils.incStep (1, ([] : Bytes))).1 + b.toNat < 2 ^ 16 :=
+  have h := Proofs.GenUtils.incFold_carry_le pre 1 [] (Nat.le_refl 1)
+  ⟨fun _ => rfl, h, Proofs.GenUtils.incStep_no_overflow _ b h⟩
 
 /-- `xor_buf` as translated = the model (xor of the common prefix, the rest of `out` unchanged) -/
 theorem translated_xor_buf (out inp : Bytes) : Gen.Utils.xor_buf out inp = Model.Utils.xorBuf out inp :=
@@ -661,14 +837,21 @@ theorem translated_xor_buf (out inp : Bytes) : Gen.Utils.xor_buf out inp = Model
 theorem translated_pad16 (n : Nat) : Gen.Utils.pad16 n = Model.Utils.pad16 n :=
   Proofs.GenUtils.pad16_eq_model n
 
-/-- `Poly1305::new` as translated (clamping of `r`, zero accumulator, pad words) = the model, for every key -/
+/-- `Poly1305::new` as translated (clamping of `r`, zero accumulator, pad words) = the model.
+HONEST SIDE CONDITION (docstring only): "for every key" holds by `getD` on both sides; the Rust takes a `ByteArray<32>`
+and slices `key.as_array()[0..8]`, `[8..16]`, `[16..24]`, `[24..32]` (a shorter container panics in `as_array`) — about
+the code the statement speaks under `key.length = 32`. -/
 theorem translated_poly1305_new (key : Bytes) :
     Gen.Poly1305.new key = (let s := Model.Poly1305.new key
        (s.r.l0, s.r.l1, s.r.l2, s.h.l0, s.h.l1, s.h.l2, s.pad0, s.pad1)) :=
   Proofs.GenPoly1305.new_eq_model key
 
 /-- `Poly1305::blocks` as translated (the whole chunk loop, every limb operation and carry) = the model,
-for every `r`, accumulator, input and both values of `partial` -/
+for every `r`, accumulator, input and both values of `partial`.
+HONEST SIDE CONDITION (docstring only): the Rust loop is `for m in input.chunks(16) { load_u64_le(&m[0..8]); load_u64_le(&m[8..]) … }`:
+on a SHORT TAIL chunk (`input.len() % 16 ≠ 0`) `&m[0..8]` / `load_u64_le` PANIC (slice index / `bytes[7]`), where both
+sides of this equation read missing bytes as `0`.  About the code the statement speaks under `input.length % 16 = 0`
+— which every call site guarantees (`update` passes whole blocks, `finalize` pads the last block to 16 bytes first). -/
 theorem translated_poly1305_blocks (r h : Model.Poly1305.Limbs) (p0 p1 : Nat) (buf input : Bytes) (isPartial : Bool) :
     Gen.Poly1305.blocks r.l0 r.l1 r.l2 h.l0 h.l1 h.l2 input isPartial =
       (let s := Model.Poly1305.blocks ⟨r, h, p0, p1, buf⟩ input isPartial
@@ -688,7 +871,8 @@ theorem translated_poly1305_mac_eq_spec (key msg : Bytes) (hk : key.length = 32)
   rw [← Proofs.GenPoly1305.mac_eq_gen]; exact Proofs.Poly1305.mac_model_eq_spec key msg hk
 
 /-- `siphash24.rs` as translated (initialisation, the chunk loop, the tail-byte loop, the finalisation rounds) = the model,
-for every key and input -/
+for every input.  HONEST SIDE CONDITION (docstring only): "for every key" holds by `getD`; the Rust takes `&[u8; 16]` and
+calls `load_u64_le(&key[..8])`, `load_u64_le(&key[8..])` — about the code the statement speaks under `key.length = 16`. -/
 theorem translated_siphash24 (key input : Bytes) :
     Model.Core.siphash24 key input = toLE 8 (Gen.SipHash.siphash24 input key) :=
   Proofs.GenSipHash.siphash24_eq_model key input
@@ -699,13 +883,16 @@ theorem translated_siphash24_eq_spec (key msg : Bytes) (hk : key.length = 16) :
   rw [← Proofs.GenSipHash.siphash24_eq_model]; exact Proofs.Core.siphash24_eq_spec key msg hk
 
 /-- `crypto_core_hchacha20` as translated (word loading, ten double rounds, the output layout) = the model,
-for every key, input, optional constants and every 32-byte output buffer -/
+for every optional constants and every 32-byte output buffer.  HONEST SIDE CONDITION (docstring only): "for every key,
+input" holds by `getD` on both sides; the Rust takes `&[u8; 32]`, `&[u8; 16]` and `load_u32_le(&key[0..4])` … would panic
+on anything shorter — about the code the statement speaks under `key.length = 32`, `inp.length = 16`. -/
 theorem translated_hchacha20 (out key inp : Bytes) (c : Option (UInt32 × UInt32 × UInt32 × UInt32))
     (hout : out.length = 32) :
     Gen.Core.crypto_core_hchacha20 out inp key (c.map Proofs.GenCore.toN4) = Model.Core.hchacha20 key inp c :=
   Proofs.GenCore.hchacha20_eq_model out key inp c hout
 
-/-- `crypto_core_hsalsa20` as translated = the model -/
+/-- `crypto_core_hsalsa20` as translated = the model (same side conditions as `translated_hchacha20`: `key.length = 32`,
+`inp.length = 16` for the statement to be about the code) -/
 theorem translated_hsalsa20 (out key inp : Bytes) (c : Option (UInt32 × UInt32 × UInt32 × UInt32))
     (hout : out.length = 32) :
     Gen.Core.crypto_core_hsalsa20 out inp key (c.map Proofs.GenCore.toN4) = Model.Core.hsalsa20 key inp c :=
@@ -724,7 +911,10 @@ theorem translated_blake2b_tables :
   ⟨Proofs.GenBlake2b.IV_eq_model, Proofs.GenBlake2b.SIGMA_eq_model⟩
 
 /-- `blake2b_soft.rs::compress` as translated (message loading, the IV/counter/flag setup, all 12 rounds of 8 `G`s with
-their message-word indices, the feed-forward) = the model, for every state, counter, flags and block -/
+their message-word indices, the feed-forward) = the model, for every state, counter, flags.  HONEST SIDE CONDITION
+(docstring only): "every block" holds by `getD`; the Rust does `load_u64_le(&block[(i * 8)..(i * 8 + 8)])` for `i < 16`
+and panics on a block shorter than 128 bytes — about the code the statement speaks under `block.length = 128` (all
+call sites: `chunks_exact(128)`, `&buf[..128]`, a buffer resized to 128). -/
 theorem translated_blake2b_compress (sh : Array UInt64) (hs : sh.size = 8) (t0 t1 f0 f1 : UInt64) (block : Bytes) :
     Gen.Blake2b.compress sh[0]!.toNat sh[1]!.toNat sh[2]!.toNat sh[3]!.toNat sh[4]!.toNat sh[5]!.toNat sh[6]!.toNat sh[7]!.toNat
       t0.toNat t1.toNat f0.toNat f1.toNat block = Proofs.GenBlake2b.out8 (Model.Blake2b.compress sh t0 t1 f0 f1 block) :=
@@ -762,4 +952,12 @@ open DryocVerif.Properties.C07
 #print axioms blake2b_update_slices_in_range
 #print axioms blake2b_update_slices_in_range_any
 #print axioms generichash_err_iff
+#print axioms hmac_verify_ok_iff
+#print axioms hmac_verify_err_iff
+#print axioms blake2b_hash_some_nil
+#print axioms genericHashObj_cases
+#print axioms sha512IntoBytes_panic_iff
+#print axioms authCompute_cases
+#print axioms onetimeCompute_cases
+#print axioms increment_bytes_no_overflow
 end AxiomCheck
